@@ -32,7 +32,7 @@ def main() -> None:
                 (m.get('needs_to_manifest') or '').replace('|', '/'),
                 conf.get('demo_without_change', {}).get('exit'), conf.get('demo_with_change', {}).get('exit'),
                 (tests.get('summary') or 'see meta.json')[:60],
-                ('caught: exit %s, kinds %s (%ss)' % (chk.get('exit'), ', '.join((chk.get('kinds') or [])[:3]) or '-', chk.get('wall_s'))) if chk else 'not run',
+                (('missed at first, then ' if m.get('first_check_result') else '') + 'caught: exit %s, kinds %s (%ss)' % (chk.get('exit'), ', '.join((chk.get('kinds') or [])[:3]) or '-', chk.get('wall_s'))) if chk else 'not run',
                 (' / applied to /repo: ' + applied) if applied else '',
             ),
         )
@@ -89,6 +89,24 @@ Strengthening done because of seeded changes (see also section 8):
   picks [1,2,3]), level 3; the coupling oracle (every multi-qudit gate on a model
   edge, computed from the model's edge list, not `is_compatible`) reports
   `output:uncoupled:circuit`.
+* **C09 (mut C09-b: PAMRoutingPass composes the new permutation with
+  `initial_mapping` instead of `final_mapping`).** Only visible when routing
+  runs a second time on the same PassData after a first stage that ended
+  permuted, i.e. in compile.py's two-stage SeqPAM workflow. The PAM family of
+  C09 modelled the second half of that workflow only and missed it. Added the
+  `seqpam` family: the repository's own
+  `build_seqpam_mapping_optimization_workflow` (plus recorders after the first
+  routing stage and at the end) on inputs containing dressed SWAPs, so that
+  the first stage ends with a non-identity permutation (required counter
+  `seqpam_refsim_checked_after_permuting_first_stage`); oracle = independent
+  simulator under the recorded mappings, coupling, mapping sanity.
+* **C11 (mut C11-b: ForEachBlockPass forms the sub-circuit of a block from
+  the parameters stored inside the CircuitGate instead of the operation's).**
+  Every generated block carried the stored parameters, for which the two
+  coincide. The generator now re-parameterises 40% of the parameterised blocks
+  (what `set_params`/`instantiate` on a partitioned circuit produces); the
+  oracle was already written against the operation's parameters. Required
+  counter `blocks_with_params_differing_from_stored_ones`.
 
 All other seeded changes were caught by the quick tier as it stood. What each
 needs in order to manifest is in the table; the catching violation kinds are
